@@ -301,6 +301,7 @@ theorem helpSection_w (n : Nat) (hd : CmdNamesDistinct P n) (sec : Section) :
     have : (({ P with nodes := N' } : Prog).node n).cmds.length = (P.node n).cmds.length :=
       (h n).cmds.length_eq.symm
     rw [this]
+  | none => rfl
 
 include hlen in
 /-- **The help text of every level is independent of the iteration order of the tables.** -/
